@@ -71,6 +71,16 @@ Theorem insertion_stays_in_attribute :
     forall y, tokenize (P ++ escape_html y ++ S) = tp ++ tok_add (pre ++ escape_html y) t :: ts.
 Proof. exact escape_html_attr. Qed.
 
+(* The welcome page of MapProxyApp (literals and call site generated from mapproxy/wsgiapp.py): whatever the
+   request host / script name is, the page has the same tokens; the URL stays inside the href attribute of the
+   one <a> tag.  (version = mapproxy.version.version, assumed free of `<`.) *)
+Theorem welcome_page_fixed_structure :
+  forall version, (forall c, In c version -> c <> c_lt) ->
+  exists tp pre t ts,
+    (forall s, t <> Text s) /\
+    forall url, tokenize (welcome_page version true url) = tp ++ tok_add (pre ++ escape_html url) t :: ts.
+Proof. exact welcome_page_structure. Qed.
+
 (* The exception documents of the source tree.  For every exception template used by a handler class
    (generated from mapproxy/service/templates by the translator), every `code` and `locator` literal that
    occurs at a RequestError call site (or None) and EVERY message:
